@@ -10,6 +10,7 @@ sys.path.insert(0, str(Path(__file__).resolve().parent))
 sys.path.insert(0, str(Path(__file__).resolve().parent.parent / 'translate'))
 import lib  # noqa
 import c07_effects  # noqa
+import c07_addext  # noqa
 
 OTHER = c07_effects.OTHER
 FORMATS_RUNNABLE = ['fistr', 'ucd', 'obj', 'vtk', 'stl', 'vtu', 'polyvtk', 'vtp', OTHER]
@@ -433,6 +434,7 @@ def rebaseline():
     BASELINE_DIR.mkdir(exist_ok=True)
     (BASELINE_DIR / 'WriteCfg.json').write_text(cfg_to_json(cfg))
     (BASELINE_DIR / 'WriteCfg.v').write_text(c07_effects.emit(cfg))
+    (BASELINE_DIR / 'AddExt.v').write_text(c07_addext.emit(c07_addext.rows('/repo')))
     print('baseline written from /repo:', [ft for ft, _ in cfg])
     return 0
 
@@ -546,12 +548,30 @@ def main(ctx):
         addext_pexp(e) == ('PIfEnds', e, ('PName',), ('PName',), ('PSuffix', '.' + e, ('PName',)))
         for e in sorted({x for x in EXT.values() if x}))
 
+    # 1b. the translated extension-adding helper (rows format, extension, term)
+    addext_v = lib.COQ / 'C07' / 'gen' / 'AddExt.v'
+    try:
+        if tie == 'H':
+            raise c07_effects.TranslateError('baseline')
+        rows_ae = c07_addext.rows(str(lib.REPO))
+        lib.write_if_changed(addext_v, c07_addext.emit(rows_ae))
+        ctx.notes['addext_rows'] = [[ft, ext, c07_effects.pexp_coq(e)] for ft, ext, e in rows_ae]
+        ctx.notes['addext_rows_are_the_validated_terms'] = all(
+            addext_pexp(ext) == e for _, ext, e in rows_ae)
+    except (c07_effects.TranslateError, SyntaxError, RecursionError) as e:
+        lib.write_if_changed(addext_v, (BASELINE_DIR / 'AddExt.v').read_text())
+        ctx.notes['addext_rows'] = f'baseline gen_baseline/AddExt.v ({e})'
+
     # 2. proofs (against the translated program, or the baseline program)
     proof_ok, log = ctx.build_props('C07/Props.v')
     if not proof_ok:
         ctx.notes['build_log_tail'] = log[-1500:]
     elif ctx.tier == 'thorough':
         ctx.coqchk('C07/Props.v')
+    if proof_ok:
+        proof_ok, log = ctx.build_props('C07/PropsSpelling.v')
+        if not proof_ok:
+            ctx.notes['build_log_tail'] = log[-1500:]
 
     # 3. model witness when the per-run obligation fails
     model_witnesses = []
